@@ -128,8 +128,8 @@ VmOutcome(from, d, c) ==
      /\ state' = "Stopped" /\ cont' \in (IF d THEN {c, "Stopped"} ELSE {"Running", "Stopped"})
      /\ entry0' = TRUE /\ direct' = TRUE /\ colpos' = FALSE /\ ev' = "Print" /\ ui' = "exec"
      /\ UNCHANGED <<dirty, lv, cv, ierr, derr>>
-  \/ \* a runtime error, STOP: reported by the following calls
-     /\ from = "Running"
+  \/ \* a runtime error, STOP: reported by the following calls (also when the call began while the
+     \* fields of an INPUT reply were being assigned and the INPUT finished within it)
      /\ state' = "RuntimeError" /\ cont' \in (IF d THEN {"Stopped"} ELSE {"Running", "Stopped"})
      /\ ev' = "Running" /\ ui' = "exec" /\ colpos' \in BOOLEAN /\ direct' = d
      /\ UNCHANGED <<entry0, dirty, lv, cv, ierr, derr>>
